@@ -450,3 +450,77 @@ func TplUnusedRangeVars(t *Tpl) (int, []TplUnusedRangeVar) {
 	})
 	return n, out
 }
+
+// TplToken is one element of a linearised template body: literal text, or an
+// output action with the data fields it reads (directly or through template
+// variables defined from them).
+type TplToken struct {
+	Text   string   // literal text (Fields == nil)
+	Fields []string // fields read by an output action
+	Action bool
+}
+
+// TplLinear flattens n into tokens in document order: the bodies of if/range/
+// with are inlined (both branches), control pipelines and variable
+// definitions produce no token, and an output action lists the fields it reads
+// with template variables replaced by the fields their definitions read.
+func TplLinear(n parse.Node) []TplToken {
+	vars := map[string][]string{}
+	fieldsOf := func(n parse.Node) []string {
+		set := map[string]bool{}
+		for _, f := range TplFields(n) {
+			if strings.HasPrefix(f, "$") {
+				for _, g := range vars[f] {
+					set[g] = true
+				}
+				continue
+			}
+			set[f] = true
+		}
+		var out []string
+		for k := range set {
+			out = append(out, k)
+		}
+		sort.Strings(out)
+		return out
+	}
+	var out []TplToken
+	var walk func(n parse.Node)
+	walk = func(n parse.Node) {
+		switch x := n.(type) {
+		case *parse.ListNode:
+			if x == nil {
+				return
+			}
+			for _, c := range x.Nodes {
+				walk(c)
+			}
+		case *parse.TextNode:
+			out = append(out, TplToken{Text: string(x.Text)})
+		case *parse.ActionNode:
+			if len(x.Pipe.Decl) > 0 {
+				var fs []string
+				for _, cmd := range x.Pipe.Cmds {
+					fs = append(fs, fieldsOf(cmd)...)
+				}
+				for _, d := range x.Pipe.Decl {
+					name := strings.Join(d.Ident, ".")
+					vars[name] = append(vars[name], fs...) // assignments accumulate: either definition may be live
+				}
+				return
+			}
+			out = append(out, TplToken{Fields: fieldsOf(x.Pipe), Action: true})
+		case *parse.IfNode:
+			walk(x.List)
+			walk(x.ElseList)
+		case *parse.RangeNode:
+			walk(x.List)
+			walk(x.ElseList)
+		case *parse.WithNode:
+			walk(x.List)
+			walk(x.ElseList)
+		}
+	}
+	walk(n)
+	return out
+}
